@@ -32,6 +32,8 @@ Record Fld : Type := mkFld {
   F_conj_opp : forall a, kconj (kopp a) = kopp (kconj a);
   F_conj_inv : forall a, kconj (kinv a) = kinv (kconj a);
   F_conj_inv0 : kinv k0 = k0;
+  F_conj_1 : kconj k1 = k1;
+  F_conj_conj : forall a, kconj (kconj a) = a;
   F_far0   : far k0 = false;                       (* atol >= 0 *)
   F_far_opp : forall d, far (kopp d) = far d;
   F_far_conj : forall d, far (kconj d) = far d;
@@ -134,6 +136,10 @@ Lemma gconj_mul a b : gconj (gmul a b) = gmul (gconj a) (gconj b).
 Proof. apply G_ext; simpl; ring. Qed.
 Lemma gconj_opp a : gconj (gopp a) = gopp (gconj a).
 Proof. apply G_ext; simpl; ring. Qed.
+Lemma gconj_1 : gconj g1 = g1.
+Proof. apply G_ext; simpl; ring. Qed.
+Lemma gconj_conj a : gconj (gconj a) = a.
+Proof. apply G_ext; simpl; ring. Qed.
 Lemma gnorm2_conj a : gnorm2 (gconj a) = gnorm2 a.
 Proof. unfold gnorm2; simpl; ring. Qed.
 Lemma gnorm2_opp a : gnorm2 (gopp a) = gnorm2 a.
@@ -177,6 +183,7 @@ Definition GF (t : Qc) (Ht : Qcltb t 0 = false) : Fld.
 Proof.
   refine (@mkFld G g0 g1 gadd gmul gsub gopp ginv gconj geqb (gfar t) gclose
             G_ring ginv_r geqb_spec gconj_add gconj_mul gconj_opp gconj_inv ginv_0
+            gconj_1 gconj_conj
             _ (gfar_opp t) (gfar_conj t) gclose_refl).
   destruct (gfar_0 t) as [H|H]; [exact H|congruence].
 Defined.
